@@ -70,7 +70,7 @@ fn die(msg: &str) -> ! {
     process::exit(2);
 }
 
-const MAX_LINE: usize = 16 << 20;
+const MAX_LINE: usize = 96 << 20;
 
 fn main() {
     let args: Vec<String> = std::env::args().collect();
@@ -120,7 +120,7 @@ fn main() {
         MAX_REQ.store(0, std::sync::atomic::Ordering::Relaxed);
         let mut result = ops::run_case(line);
         let big = MAX_REQ.load(std::sync::atomic::Ordering::Relaxed);
-        // No case of the unchanged library prints more than about 1 MB. A changed one may (a decoder
+        // No case of the unchanged library prints more than about 30 MB (thorough tier: 2 MB packets, seven hex copies). A changed one may (a decoder
         // that believes a 256 MB body arrived): keep the head of the line, so the run stays bounded.
         if result.len() > MAX_LINE {
             let n = result.len();
